@@ -1,9 +1,11 @@
 import SwayVerif.Props.C24
-open SwayVerif.C24
+open SwayVerif.C24 SwayVerif.LspSched
+#print axioms quiescent_iff_only_spawn
 #print axioms C24_no_stuck_waiter_cfg
 #print axioms C24_no_stuck_waiter
 #print axioms C24_latest_compiled_cfg
 #print axioms C24_latest_compiled
+#print axioms C24_tree_is_fixed
 #print axioms C24_orig_stuck_waiter
 #print axioms C24_orig_stuck_waiter_late_store
 #print axioms C24_orig_lost_edit
